@@ -608,6 +608,16 @@ func ZRangeRank(key string, start, stop int, desc bool) *Op {
 	return &Op{Name: "ZRangeRank", Tok: fmt.Sprintf("ZRangeRank %s %s %s %s", SS(key), I(start), I(stop), B(desc)),
 		Run: func(r R, x *Exec, op *Op) Res {
 			c := r.ZSet().RangeWith(key).ByRank(start, stop)
+			// Offset and Count are documented to "only take effect when filtering by score":
+			// on a rank range they must change nothing (given in either order around ByRank)
+			switch ((start%5)+5)%5 + ((stop%3)+3)%3 {
+			case 1:
+				c = c.Offset(1)
+			case 2:
+				c = c.Count(1)
+			case 3:
+				c = r.ZSet().RangeWith(key).Offset(2).Count(1).ByRank(start, stop)
+			}
 			if desc {
 				c = c.Desc()
 			} else if start%2 == 0 {
